@@ -506,7 +506,7 @@ func styleConsts(c *ex.Ctx, f *ast.File) (out []intConst) {
 
 func genSgrCases(c *ex.Ctx, fCell, fSS, fStyle, fVx, fSgr, fQuirks *ast.File, strs []strConst, sgrNames map[string]bool) {
 	var sb strings.Builder
-	sb.WriteString("namespace VaxisModel.Gen.SgrCases\n\n/-! style.go constants. -/\n")
+	sb.WriteString("import VaxisModel.Gen.Sequences\n\nnamespace VaxisModel.Gen.SgrCases\n\n/-! style.go constants. -/\n")
 	sc := styleConsts(c, fStyle)
 	var attrs, uls []intConst
 	for _, k := range sc {
@@ -554,8 +554,10 @@ func genSgrCases(c *ex.Ctx, fCell, fSS, fStyle, fVx, fSgr, fQuirks *ast.File, st
 
 	// producers
 	all := map[string]bool{}
+	isVar := map[string]bool{}
 	for _, s := range strs {
 		all[s.name] = true
+		isVar[s.name] = s.isVar
 	}
 	prods := []struct {
 		name string
@@ -577,7 +579,25 @@ func genSgrCases(c *ex.Ctx, fCell, fSS, fStyle, fVx, fSgr, fQuirks *ast.File, st
 			return
 		}
 		fmt.Fprintf(&sb, "def %sSgr : List String := %s\n", p.name, strList(sg))
-		fmt.Fprintf(&sb, "def %sAll : List String := %s\n\n", p.name, strList(refs(p.fd.Body, all)))
+		fmt.Fprintf(&sb, "def %sAll : List String := %s\n", p.name, strList(refs(p.fd.Body, all)))
+		// the extended-colour format each producer uses in its foreground / background blocks, and
+		// whether that name is a `var` (rewritten by applyQuirks under VAXIS_FORCE_LEGACY_SGR)
+		want := map[int]string{0: "fgReset", 1: "fgSet", 2: "fgBrightSet", 5: "bgReset", 6: "bgSet", 7: "bgBrightSet"}
+		for i, w := range want {
+			if sg[i] != w {
+				c.Fail("producer %s: SGR reference %d is %s, expected %s (colour blocks not recognised)", p.name, i, sg[i], w)
+				return
+			}
+		}
+		for _, sl := range []struct {
+			slot string
+			at   int
+		}{{"FgIndex", 3}, {"FgRGB", 4}, {"BgIndex", 8}, {"BgRGB", 9}} {
+			nm := sg[sl.at]
+			fmt.Fprintf(&sb, "def %s%s_t : Sequences.Template := Sequences.«%s_t»\n", p.name, sl.slot, nm)
+			fmt.Fprintf(&sb, "def %s%sMutable : Bool := %v\n", p.name, sl.slot, isVar[nm])
+		}
+		sb.WriteString("\n")
 	}
 
 	// who else writes SGR-shaped strings: every function of the root package files we parsed that
